@@ -48,16 +48,18 @@ func GetFileNameList(path string, ignoreList []string) (fields []Field, err erro
 
 		fileCreator := make([]byte, 4)
 
+		// An entry can be renamed, moved or deleted by another client while the listing is being built: such an entry is
+		// left out, the listing itself still succeeds.
 		fileInfo, err := file.Info()
 		if err != nil {
-			return fields, fmt.Errorf("error getting file info: %s: %w", file.Name(), err)
+			continue
 		}
 
 		// Check if path is a symlink.  If so, follow it.
 		if fileInfo.Mode()&os.ModeSymlink != 0 {
 			resolvedPath, err := os.Readlink(filepath.Join(path, file.Name()))
 			if err != nil {
-				return fields, fmt.Errorf("error following symlink: %s: %w", resolvedPath, err)
+				continue
 			}
 
 			// Skip aliases that cannot be resolved (missing target, alias pointing to itself, ...) instead of failing
@@ -70,7 +72,7 @@ func GetFileNameList(path string, ignoreList []string) (fields []Field, err erro
 			if rFile.IsDir() {
 				dir, err := os.ReadDir(filepath.Join(path, file.Name()))
 				if err != nil {
-					return fields, err
+					continue
 				}
 
 				var c uint32
@@ -91,7 +93,7 @@ func GetFileNameList(path string, ignoreList []string) (fields []Field, err erro
 		} else if file.IsDir() {
 			dir, err := os.ReadDir(filepath.Join(path, file.Name()))
 			if err != nil {
-				return fields, fmt.Errorf("readDir: %w", err)
+				continue
 			}
 
 			var c uint32
@@ -112,7 +114,7 @@ func GetFileNameList(path string, ignoreList []string) (fields []Field, err erro
 
 			hlFile, err := NewFileWrapper(&OSFileStore{}, path+"/"+file.Name(), 0)
 			if err != nil {
-				return nil, fmt.Errorf("NewFileWrapper: %w", err)
+				continue
 			}
 
 			copy(fnwi.FileSize[:], hlFile.TotalSize())
